@@ -15,6 +15,7 @@ import (
 	"sort"
 	"strconv"
 	"sync"
+	"sync/atomic"
 	"testing"
 	"time"
 
@@ -138,7 +139,13 @@ func mustJSON(v any) json.RawMessage {
 	return b
 }
 
+// progress is bumped for every recorded case (read by watchdogs); liveStats is the Stats of the
+// running property in this process.
+var progress int64
+var liveStats atomic.Pointer[Stats]
+
 func (s *Stats) record(c any, out Outcome) {
+	atomic.AddInt64(&progress, 1)
 	s.mu.Lock()
 	defer s.mu.Unlock()
 	if s.frozen {
@@ -233,7 +240,12 @@ func scratchDir() string {
 }
 
 // RunProp is the body of every property test.
-func RunProp(t *testing.T, p *Prop) {
+func RunProp(t *testing.T, p *Prop) { runPropTB(t, nil, p) }
+
+// runPropTB: with tb == nil rapid runs in a subtest of t; otherwise rapid.Check is called
+// directly on tb (needed inside a synctest bubble, where subtests are not allowed and
+// (*testing.T).Deadline may not be called).
+func runPropTB(t *testing.T, tb rapid.TB, p *Prop) {
 	shard := envInt("VERIF_SHARD", 0)
 	st := &Stats{
 		Property: p.ID, Test: p.Name, Shard: shard,
@@ -244,6 +256,7 @@ func RunProp(t *testing.T, p *Prop) {
 	if d := outDir(); d != "" {
 		st.outPath = filepath.Join(d, fmt.Sprintf("%s.%d.stats.json", p.Name, shard))
 	}
+	liveStats.Store(st)
 	exec := p.executor()
 	defer exec.close()
 
@@ -312,64 +325,76 @@ func RunProp(t *testing.T, p *Prop) {
 	lastFlush := time.Now()
 	var firstFail time.Time
 	shrinkBudget := time.Duration(envInt("VERIF_SHRINK_BUDGET_S", 40)) * time.Second
-	ok := t.Run("rapid", func(t *testing.T) {
-		rapid.Check(t, func(rt *rapid.T) {
-			c := p.Gen(rt)
-			raw := mustJSON(c)
+	propFn := func(rt *rapid.T) {
+		c := p.Gen(rt)
+		raw := mustJSON(c)
+		st.mu.Lock()
+		tooSlow := len(st.Slow) >= 3
+		overBudget := st.first != nil && time.Since(firstFail) > shrinkBudget
+		st.mu.Unlock()
+		if overBudget {
+			// rapid checks its shrink deadline rarely; when single cases are slow the harness
+			// ends minimisation itself by letting every further candidate pass
+			return
+		}
+		if tooSlow {
+			// Latency bounds were exceeded several times already: the candidates go to the
+			// driver for confirmation; generating more slow cases only burns the budget.
 			st.mu.Lock()
-			tooSlow := len(st.Slow) >= 3
-			overBudget := st.first != nil && time.Since(firstFail) > shrinkBudget
+			st.Labels["skipped:after-3-slow-cases"]++
 			st.mu.Unlock()
-			if overBudget {
-				// rapid checks its shrink deadline rarely; when single cases are slow the harness
-				// ends minimisation itself by letting every further candidate pass
-				return
+			return
+		}
+		if curPath != "" {
+			os.WriteFile(curPath, raw, 0o644)
+		}
+		out := exec.run(c)
+		st.record(c, out)
+		if time.Since(lastFlush) > 5*time.Second {
+			lastFlush = time.Now()
+			st.write()
+		}
+		if out.Violation != "" {
+			st.mu.Lock()
+			st.frozen = true
+			rec := &ViolationRec{Message: out.Violation, Case: raw}
+			if st.first == nil {
+				st.first = rec
+				firstFail = time.Now()
 			}
-			if tooSlow {
-				// Latency bounds were exceeded several times already: the candidates go to the
-				// driver for confirmation; generating more slow cases only burns the budget.
-				st.mu.Lock()
-				st.Labels["skipped:after-3-slow-cases"]++
-				st.mu.Unlock()
-				return
-			}
-			if curPath != "" {
-				os.WriteFile(curPath, raw, 0o644)
-			}
-			out := exec.run(c)
-			st.record(c, out)
-			if time.Since(lastFlush) > 5*time.Second {
-				lastFlush = time.Now()
-				st.write()
-			}
-			if out.Violation != "" {
-				st.mu.Lock()
-				st.frozen = true
-				rec := &ViolationRec{Message: out.Violation, Case: raw}
-				if st.first == nil {
-					st.first = rec
-					firstFail = time.Now()
-				}
-				st.last = rec
-				st.mu.Unlock()
-				rt.Fatalf("VIOLATION property=%s: %s", p.ID, out.Violation)
-			}
-		})
-	})
-	if curPath != "" {
-		os.Remove(curPath)
-	}
-	st.mu.Lock()
-	if st.last != nil {
-		l := *st.last
-		l.Shrunk = true
-		st.Violations = append(st.Violations, l)
-		if string(st.first.Case) != string(l.Case) {
-			st.Violations = append(st.Violations, *st.first)
+			st.last = rec
+			st.mu.Unlock()
+			rt.Fatalf("VIOLATION property=%s: %s", p.ID, out.Violation)
 		}
 	}
-	st.Completed = ok || st.last != nil
-	st.mu.Unlock()
+	finalize := func(ok bool) {
+		if curPath != "" {
+			os.Remove(curPath)
+		}
+		st.mu.Lock()
+		if st.last != nil {
+			l := *st.last
+			l.Shrunk = true
+			st.Violations = append(st.Violations, l)
+			if string(st.first.Case) != string(l.Case) {
+				st.Violations = append(st.Violations, *st.first)
+			}
+		}
+		st.Completed = ok || st.last != nil
+		st.mu.Unlock()
+	}
+	if tb != nil {
+		finished := false
+		func() {
+			// rapid ends a failed check with FailNow (runtime.Goexit): finalize in a defer
+			defer func() { finalize(finished) }()
+			rapid.Check(tb, propFn)
+			finished = true
+		}()
+		return
+	}
+	ok := t.Run("rapid", func(t *testing.T) { rapid.Check(t, propFn) })
+	finalize(ok)
 }
 
 // executor abstracts in-process versus isolated execution.
